@@ -204,6 +204,19 @@ CLAIMS['C12']['text'] = ('R-HEAD (every head kind can be started through Here/Ne
                          'exactly a valid not-completed task on the stopped inline executor; Detach/ToFuture go through '
                          'Start). Equality with the eager pipeline needs execution: not decided.')
 
+CLAIMS.update({
+    'C03': dict(
+        text='Over every Core / PromiseCore / UniqueJob / strategy instantiation: R-DONEORDER (caller slot read -> Store '
+             '-> predecessor released -> functor destroyed -> SetResult last, no slot read after the Store), R-FUNCTOR '
+             '(functor destroyed exactly once per completion on every path), R-REFBAL (predecessor / inner-core '
+             'reference balance derived from the CoreType bits), R-DELETE (delete / frame destruction only in the '
+             'deleters, deleter only on the zero edge), R-UNIQUEJOB, R-STRATEGY (owning strategies release every input '
+             'on every destructor path), R-CANCEL, R-SHAREDWALK. Absence of leaks / double frees over all '
+             'interleavings is not decided (ownership moves through the callback word at run time).',
+        technique='linear-resource typestate per CFG path over all template instantiations + who-may-delete table',
+        design='4/C03'),
+})
+
 NOT_YET = {}
 
 
